@@ -6,6 +6,7 @@ import (
 	"sort"
 	"strings"
 	"sync"
+	"sync/atomic"
 	"testing"
 	"time"
 
@@ -437,10 +438,142 @@ func gateStopCase(interval bool, period int, r *rep.Report) (key, msg string, re
 	return "", "", true
 }
 
+// callbackCase: what the callback itself does.  behaviour: self-cancel (the k-th callback cancels
+// its own timer), self-refresh (a timeout's callback refreshes its own timer k times), slow (every
+// callback sleeps 2.5 periods; another goroutine cancels while one is asleep).
+func callbackCase(interval bool, behaviour string, period, k int, r *rep.Report) (key, msg string) {
+	var mu sync.Mutex
+	var starts []int
+	cancelIssued, cancelReturned := -1, -1
+	var leftovers []string
+	rig.Bubble(r.T(), func() {
+		start := time.Now()
+		now := func() int { return int(time.Since(start) / time.Millisecond) }
+		P := time.Duration(period) * time.Millisecond
+		// published through an atomic: the first callback may run before the constructor's result
+		// has been stored by this goroutine
+		var tmP atomic.Pointer[utils.Timer]
+		n := 0
+		fn := func() {
+			mu.Lock()
+			n++
+			mine := n
+			starts = append(starts, now())
+			mu.Unlock()
+			switch behaviour {
+			case "self-cancel":
+				if mine == k {
+					mu.Lock()
+					cancelIssued = now()
+					mu.Unlock()
+					if interval {
+						utils.ClearInterval(tmP.Load())
+					} else {
+						utils.ClearTimeout(tmP.Load())
+					}
+					mu.Lock()
+					cancelReturned = now()
+					mu.Unlock()
+				}
+			case "self-refresh":
+				if mine <= k {
+					tmP.Load().Refresh()
+				}
+			case "slow":
+				time.Sleep(P*5/2 + time.Millisecond/4)
+			}
+		}
+		var tm *utils.Timer
+		if interval {
+			tm = utils.SetInterval(fn, P)
+		} else {
+			tm = utils.SetTimeout(fn, P)
+		}
+		tmP.Store(tm)
+		if behaviour == "slow" {
+			// cancel from here while the k-th callback is asleep (a quarter period after it started)
+			time.Sleep(P*time.Duration(k) + P/4)
+			mu.Lock()
+			cancelIssued = now()
+			mu.Unlock()
+			done := make(chan struct{})
+			go func() {
+				if interval {
+					utils.ClearInterval(tm)
+				} else {
+					utils.ClearTimeout(tm)
+				}
+				mu.Lock()
+				cancelReturned = now()
+				mu.Unlock()
+				close(done)
+			}()
+			rig.Wait()
+			select {
+			case <-done:
+			default:
+				mu.Lock()
+				st := append([]int(nil), starts...)
+				mu.Unlock()
+				key, msg = "timer-cancel-hangs", fmt.Sprintf("cancel issued at %d ms while callback #%d (started at %v, sleeping 2.5 periods) is running did not return promptly", now(), k, st)
+			}
+		}
+		time.Sleep(P * 12)
+		rig.Wait()
+		mu.Lock()
+		if key == "" && behaviour == "self-cancel" && cancelIssued >= 0 && cancelReturned < 0 {
+			key, msg = "timer-cancel-hangs", fmt.Sprintf("cancel issued by callback #%d of its own timer at %d ms never returned", k, cancelIssued)
+		}
+		mu.Unlock()
+		leftovers = rig.Leftovers()
+		go tm.Stop()
+		rig.Wait()
+	})
+	if key != "" {
+		return
+	}
+	kind := "timeout"
+	if interval {
+		kind = "interval"
+	}
+	// expected start instants
+	var want []int
+	switch {
+	case !interval && behaviour == "self-refresh":
+		for i := 1; i <= k+1; i++ {
+			want = append(want, i*period)
+		}
+	case !interval:
+		want = []int{period}
+	case behaviour == "self-cancel":
+		for i := 1; i <= k; i++ {
+			want = append(want, i*period)
+		}
+	case behaviour == "slow":
+		for i := 1; i <= k; i++ {
+			want = append(want, i*period)
+		}
+	}
+	if fmt.Sprint(starts) != fmt.Sprint(want) {
+		what := kind + "-callback-missing"
+		if len(starts) > len(want) {
+			what = kind + "-callback-after-cancel"
+		}
+		return what, fmt.Sprintf("%s (period %d ms), callback behaviour %s (k=%d): callbacks started at %v ms, expected %v ms (cancel issued %d, returned %d)", kind, period, behaviour, k, starts, want, cancelIssued, cancelReturned)
+	}
+	if behaviour != "self-refresh" && cancelIssued >= 0 && cancelReturned != cancelIssued {
+		return "timer-cancel-hangs", fmt.Sprintf("%s cancel issued at %d ms returned at %d ms (callbacks %v)", kind, cancelIssued, cancelReturned, starts)
+	}
+	if len(leftovers) > 0 {
+		return "timer-goroutine-left-behind", fmt.Sprintf("%d goroutine(s) left: %s", len(leftovers), rig.TopFrames(leftovers[0], 3))
+	}
+	return "", ""
+}
+
 func TestC19(t *testing.T) {
 	r := rep.New(t, "C19")
 	defer r.Flush()
-	r.Rule("virtual-time (synctest) sequences of SetTimeout/SetInterval/Refresh/Stop/ClearTimeout/ClearInterval on 1-3 timers, operations placed on and off the due instants, issued from other goroutines, with repeated and concurrent cancels; each run compared with a reference schedule (required / optional-at-coincidence / forbidden instants), cancel-return watchdog and bubble leftover scan; gate lanes hold the interval loop between tick and re-arm and a canceller between runtime Stop and its signal; distinct = (timer kinds, op multiset, number of coincident ops, outcome)")
+	r.Rule("virtual-time (synctest) sequences of SetTimeout/SetInterval/Refresh/Stop/ClearTimeout/ClearInterval on 1-3 timers, operations placed on and off the due instants, issued from other goroutines, with repeated and concurrent cancels; each run compared with a reference schedule (required / optional-at-coincidence / forbidden instants), cancel-return watchdog and bubble leftover scan; gate lanes hold the interval loop between tick and re-arm and a canceller between runtime Stop and its signal; a callback-behaviour lane (the callback cancels or refreshes its own timer; callbacks that outlast 2.5 periods with a cancel from another goroutine while one is running); distinct = (timer kinds, op multiset, number of coincident ops, outcome)")
 	r.Assume("an operation issued at exactly a due instant races with the runtime timer by design: the callback of that instant may or may not run (optional), everything else is exact")
 	r.Assume("Refresh is specified for timeouts (pending or fired, not cancelled); it is not generated for intervals or after a cancel")
 	n := r.N(20000, 1500000)
@@ -474,6 +607,28 @@ func TestC19(t *testing.T) {
 		}
 		if key != "" {
 			r.Violation(key, msg, c)
+		}
+	}
+	if r.Lane == 0 {
+		for _, interval := range []bool{true, false} {
+			for _, beh := range []string{"self-cancel", "self-refresh", "slow"} {
+				if interval && beh == "self-refresh" {
+					continue
+				}
+				for _, period := range []int{1, 4, 10} {
+					for k := 1; k <= 3; k++ {
+						if !interval && beh != "self-refresh" && k > 1 {
+							continue
+						}
+						key, msg := callbackCase(interval, beh, period, k, r)
+						r.Case(fmt.Sprintf("callback/%v/%s/p%d/k%d/%s", interval, beh, period, k, key), true)
+						r.Obs("callback_behaviour_cases", 1)
+						if key != "" {
+							r.Violation("callback:"+key, msg, map[string]any{"lane": "callback behaviour", "interval": interval, "behaviour": beh, "period_ms": period, "k": k})
+						}
+					}
+				}
+			}
 		}
 	}
 	ng := r.N(40, 2000)
